@@ -5,7 +5,8 @@
 (*   kind "resp" : matrix plus a two-valued / constant response y in {0,1}^rows (PLS)                      *)
 (* Shapes with more than FullCells cells are sampled deterministically when SampleMod > 1 (cell index mod  *)
 (* SampleMod = SampleRes); smaller shapes are always complete.  Every case is printed through Emit with the exact rank *)
-(* of the raw and of the column-centred matrix, the constant-column flags and (resp) whether X_c'y_c # 0.  *)
+(* of the raw and of the column-centred matrix, the constant-column flags and (resp) whether X_c'y_c # 0    *)
+(* and the exact number of PLS1 latent variables (dimension of the Krylov space of X_c'X_c and X_c'y_c).   *)
 EXTENDS ExactRank, TLC, Json
 CONSTANTS MaxR, MaxC, FullCells, SampleMod, SampleRes, Ex, Kinds,
           YNorm      \* TRUE: only responses with y[1] = 0 (y and 1 - y have the same centred direction up to sign)
@@ -47,6 +48,5 @@ Emit == PrintT("@@" \o ToJson(CaseRec))
 Theorems == /\ RankSane(M)
             /\ (kind = "resp" /\ YConst) => ~CovNonZero(M, y)          \* a constant response has no covariance with X
             /\ (kind = "resp" /\ RankCentred(M) = 0) => ~CovNonZero(M, y)
-            /\ kind = "resp" => /\ KrylovRank(M, y) \in 0..RankCentred(M)
-                                /\ (KrylovRank(M, y) = 0) = ~CovNonZero(M, y)
+            /\ kind = "resp" => LET k == KrylovRank(M, y) IN k \in 0..RankCentred(M) /\ (k = 0) = ~CovNonZero(M, y)
 ====
